@@ -137,6 +137,22 @@ let () = iter_lines (fun line ->
         written_line (WriterModel.encode_lossless_container (zl (unhex bs)) (z_of_string w) (z_of_string h)
                         (zl (unhex icc)) (zl (unhex exif)) (zl (unhex xmp)))
           (match go with [g] -> Some g | _ -> None)
+      | ["B"; dhex; phex] ->
+        (* internal/bitio.BoolReader: NewBoolReader(data), then GetBit(p) per p; state after each read,
+           "E" from the read on that sets the end-of-input flag *)
+        let show (g : Vp8GoReader.greader) =
+          if g.Vp8GoReader.gr_eof then "E"
+          else Printf.sprintf "%s,%s,%s" (zs g.Vp8GoReader.gr_value) (zs g.Vp8GoReader.gr_range) (zs g.Vp8GoReader.gr_bits) in
+        let g0 = PrefixBitio.gr_new (zl (unhex dhex)) in
+        let buf = Buffer.create 256 in
+        Buffer.add_string buf (show g0);
+        let _ = Stdlib.List.fold_left (fun g p ->
+          let (b, g1) = Vp8GoReader.gr_bit (z_of_int p) g in
+          Buffer.add_char buf ' ';
+          (if g1.Vp8GoReader.gr_eof then Buffer.add_string buf "E"
+           else (Buffer.add_string buf (if b then "1:" else "0:"); Buffer.add_string buf (show g1)));
+          g1) g0 (unhex phex) in
+        Buffer.contents buf
       | ["A"; fc; hp; hm; anim; simple] ->
         let s = if simple = "none" then None else Some (zl (unhex simple)) in
         fnv (il (WriterModel.anim_close fix_meta (z_of_string fc) (hp = "1") (hm = "1") (zl (unhex anim)) s))
